@@ -958,7 +958,11 @@ int vorbis_synthesis_pcmout(vorbis_dsp_state *v,float ***pcm){
 }
 
 int vorbis_synthesis_read(vorbis_dsp_state *v,int n){
-  if(n && v->pcm_returned+n>v->pcm_current)return(OV_EINVAL);
+  /* pcm_returned==-1 marks "nothing decoded since init/restart": there is
+     nothing to consume, and counting from the marker would accept up to a
+     whole buffer of samples that were never produced */
+  if(n && (v->pcm_returned<0 || v->pcm_returned+n>v->pcm_current))
+    return(OV_EINVAL);
   v->pcm_returned+=n;
   return(0);
 }
